@@ -115,7 +115,9 @@ PROPS = {
         "min_nontrivial_frac": 0.3,
         "rule": "NFA pairs as for C09 (eps-acceptance, several start states, product states with exactly one initial component, dead/unreachable parts); results of Union, UnionDisjointStates, Intersection, "
                 "Reverse (also twice), RemoveUnreachableStates, RemoveUselessStates are read through DumpToString with the harness' own reader and compared by language with reference union/product/mirror/"
-                "identity (exact subset-construction inclusion both ways); GetCandidateTree must be a sub-language, non-empty whenever the input is; operands are re-read after the calls. "
+                "identity (exact subset-construction inclusion both ways); GetCandidateTree must be a sub-language, non-empty whenever the input is. Then a chain of 4-10 further operations is applied to RESULTS of earlier ones "
+                "(and repeatedly to the same operand object; UnionDisjointStates between the A numbering family and a disjointly numbered copy of B and their derivatives): every handle carries the language it must have, computed by the "
+                "reference operations from the models of its operands, never from what the library returned. "
                 "Non-trivial: an operand accepts eps or has >= 2 start states, and not both languages are empty. Distinct: hash of the case text.",
         "assumptions": COMMON_ASSUMPTIONS,
     },
